@@ -110,7 +110,7 @@ def make_job(ctx, proto, workers, seed, ndata):
             uniq.add(tuple(dgm["buf"]))
             out.append(dgm)
     return {"proto": proto, "workers": workers, "seed": seed, "udpsize": 1500, "templates": tpl, "data": out[:ndata],
-            "lazy": rng.choice([1, 3, 8, 40]), "poison": poison}
+            "lazy": rng.choice([1, 3, 8, 40]), "poison": poison, "verbose": seed % 2 == 1}
 
 
 def run_job(ctx, drv, job, tag):
